@@ -2,6 +2,7 @@
 from engine import guards as G
 from engine import mir
 from . import common as K
+from . import detectors as D
 from .common import A, fshort
 
 EXPLANATION = (
@@ -28,6 +29,7 @@ def resp_field(term, variant, idx):
 
 
 def check(run):
+    D.ob_state_mutations(run, "O14.8", ['repair::Repair'], 'outstanding requests, proven roots and slice counts are what responses are checked against: clearing or overwriting them derails or corrupts a repair')
     prog = run.program("lib")
     fam = [b for b in prog.family(REP + "::handle_response") if b.is_closure and b.defpath.endswith("handle_response::{closure#0}")]
     if not fam:
